@@ -15,6 +15,9 @@ CLAIMED = {
  "C19": ("SSA dataflow: dominating length facts + interprocedural preconditions, explicit-panic classification, checked-then-succeeded error rule",
          "Structural clauses of 'untrusted input never panics / partial state': (ERR-i) no return in the failure branch of an error/length test reports success, (ERR-ii) no pointer/slice/bool result escapes together with an error, (LEN) every constant-bound index/slice/array-conversion on a parameter-derived slice is covered by a dominating length fact along every call chain up to an exported entry of a public package, (PANIC) every explicit panic is proved impossible from exact-length facts at its call sites, is a dispatch-guarded vector stub, is init-time, or is in the frozen documented-panic table. All build configurations. Termination, nil dereferences and relationally bounded accesses are listed as undecided in the evidence and not claimed.",
          "DESIGN.md §3 E-LEN, §4 C19", "the documented-panic table (props/c19.go) was confirmed by reading the doc comments", ["elen"]),
+ "C08": ("interprocedural context-sensitive taint analysis over SSA (field- and window-sensitive access paths) + Go-assembly lint",
+         "Decides the source-level statement of C08 for the analysed build configurations: from ~110 constant-time entry points (table derived from the property statement) no secret-derived value is used as a branch condition, loop bound, memory/table index, slice bound, allocation size, division operand, shift count or aggregate comparison, is passed to a function outside a closed allow-list of modelled constant-time callees, or reaches a *Vartime routine; every assembly routine has no data-dependent jump, no indexed memory operand and no variable-latency instruction. All paths, all inputs, every reachable function, 3 (quick) / 6 (thorough) configurations. Positive controls for every sink kind fire on each run.",
+         "DESIGN.md §3 E-CT, E-ASM, §4 C08", "source, declassifier and external-model tables are in props/c08.go and ect/external.go; micro-architectural timing and compiler-introduced branches are out of scope", ["ect", "easm"]),
 }
 
 PENDING_REASON = "check under construction (DESIGN.md section 7 build order); not claimed yet"
